@@ -4,18 +4,19 @@
 //
 // Two StorageEngines get the same history through the public API; in one the knowledge graph's incremental
 // maintenance is enabled (KnowledgeGraph::enable_incremental, what creating an index does) at a chosen point of the
-// history, in the other never.  After EVERY step both are asked for d1, d2 and d3 (rules over base facts, a rule over
-// another derived relation, a recursive rule) through execute_query_with_rules_tuples_on and must agree; the engine
+// history, in the other never.  After EVERY step both are asked for d1, d2, d3 and d4 (rules over base facts, a rule over
+// a derived relation and a base relation, a recursive rule, a rule over derived relations only) through execute_query_with_rules_tuples_on and must agree; the engine
 // without incremental maintenance is the "fresh evaluation of the current rules over the current facts".
-// Histories: every sequence of length <= 2, every 3rd of length 3 (thorough: all of length <= 3, every 20th of length 4) over 10 steps (base inserts/deletes on two relations, rule
+// Histories: every sequence of length <= 2, every 3rd of length 3 (thorough: all of length <= 3, every 20th of length 4) over 11 steps (base inserts/deletes on two relations, rule
 // registration incl. a second clause and a derived-on-derived rule, clause removal, rule drop), with incremental
-// maintenance enabled before step 0, 1 or 2.
+// maintenance enabled before step 0, 1 or 2, from an empty knowledge graph or one whose `edge` relation already holds
+// two tuples (alternating; both for histories that start with a rule over base facts followed by a rule over it).
 use super::*;
 include!("/verif/witness/common.rs");
 
 #[derive(Clone, Copy, Debug, PartialEq)]
-enum VOp { InsE1, InsE2, DelE1, InsF, RegD1, RegD1b, RegD2, RegD3, RmClauseD1, DropD1 }
-const VOPS: [VOp; 10] = [VOp::InsE1, VOp::InsE2, VOp::DelE1, VOp::InsF, VOp::RegD1, VOp::RegD1b, VOp::RegD2, VOp::RegD3, VOp::RmClauseD1, VOp::DropD1];
+enum VOp { InsE1, InsE2, DelE1, InsF, RegD1, RegD1b, RegD2, RegD3, RegD4, RmClauseD1, DropD1 }
+const VOPS: [VOp; 11] = [VOp::InsE1, VOp::InsE2, VOp::DelE1, VOp::InsF, VOp::RegD1, VOp::RegD1b, VOp::RegD2, VOp::RegD3, VOp::RegD4, VOp::RmClauseD1, VOp::DropD1];
 
 fn vi_cfg(dir: std::path::PathBuf) -> crate::Config {
     let mut c = crate::Config::default();
@@ -36,6 +37,7 @@ fn vi_apply(s: &StorageEngine, op: VOp) -> bool {
         VOp::RegD2 => s.register_rule_in("kg", &vi_rule("d2(X, Z) <- d1(X, Y), edge(Y, Z)")).is_ok(),
         VOp::RegD3 => s.register_rule_in("kg", &vi_rule("d3(X, Y) <- edge(X, Y)")).is_ok()
             && s.register_rule_in("kg", &vi_rule("d3(X, Z) <- d3(X, Y), edge(Y, Z)")).is_ok(),
+        VOp::RegD4 => s.register_rule_in("kg", &vi_rule("d4(X, Y) <- d1(X, Y)")).is_ok(),   // reads derived relations only
         VOp::RmClauseD1 => s.remove_rule_clause_in("kg", "d1", 0).is_ok(),
         VOp::DropD1 => s.drop_rule_in("kg", "d1").is_ok(),
     }
@@ -43,7 +45,7 @@ fn vi_apply(s: &StorageEngine, op: VOp) -> bool {
 
 fn vi_answers(s: &StorageEngine) -> String {
     let mut out = Vec::new();
-    for rel in ["d1", "d2", "d3"] {
+    for rel in ["d1", "d2", "d3", "d4"] {
         let q = format!("result(X, Y) <- {rel}(X, Y)");
         match s.execute_query_with_rules_tuples_on("kg", &q) {
             Ok(mut rows) => {
@@ -57,11 +59,14 @@ fn vi_answers(s: &StorageEngine) -> String {
     out.join(" ")
 }
 
-fn vi_run(h: &[VOp], enable_at: usize) -> Option<String> {
+fn vi_run(h: &[VOp], enable_at: usize, prepopulated: bool) -> Option<String> {
     let (ta, tb) = (tempfile::TempDir::new().unwrap(), tempfile::TempDir::new().unwrap());
     let mut a = StorageEngine::new(vi_cfg(ta.path().to_path_buf())).unwrap();
     let mut b = StorageEngine::new(vi_cfg(tb.path().to_path_buf())).unwrap();
-    for s in [&mut a, &mut b] { s.create_knowledge_graph("kg").unwrap(); s.use_knowledge_graph("kg").unwrap(); }
+    for s in [&mut a, &mut b] {
+        s.create_knowledge_graph("kg").unwrap(); s.use_knowledge_graph("kg").unwrap();
+        if prepopulated { s.insert_tuples_into("kg", "edge", vec![vi_t(1, 2), vi_t(2, 3)]).unwrap(); }
+    }
     for (i, op) in h.iter().enumerate() {
         if i == enable_at {
             let kg = a.knowledge_graphs.get("kg").unwrap();
@@ -69,12 +74,12 @@ fn vi_run(h: &[VOp], enable_at: usize) -> Option<String> {
         }
         let (ra, rb) = (vi_apply(&a, *op), vi_apply(&b, *op));
         if ra != rb {
-            return Some(format!("history {:?} (incremental maintenance enabled before step {enable_at}): step {i} {:?} {} with incremental maintenance but {} without",
-                h, op, if ra { "succeeds" } else { "fails" }, if rb { "succeeds" } else { "fails" }));
+            return Some(format!("{}history {:?} (incremental maintenance enabled before step {enable_at}): step {i} {:?} {} with incremental maintenance but {} without",
+                if prepopulated { "start edge={(1,2),(2,3)}, " } else { "" }, h, op, if ra { "succeeds" } else { "fails" }, if rb { "succeeds" } else { "fails" }));
         }
         let (qa, qb) = (vi_answers(&a), vi_answers(&b));
         if qa != qb {
-            return Some(format!("history {:?} (incremental maintenance enabled before step {enable_at}): after step {i} {:?} the answers are [{qa}] with incremental maintenance, [{qb}] from a fresh evaluation", h, op));
+            return Some(format!("{}history {:?} (incremental maintenance enabled before step {enable_at}): after step {i} {:?} the answers are [{qa}] with incremental maintenance, [{qb}] from a fresh evaluation", if prepopulated { "start edge={(1,2),(2,3)}, " } else { "" }, h, op));
         }
     }
     None
@@ -94,8 +99,11 @@ fn verif_witness() {
     // quick: every history of length <= 2, every 3rd of length 3; thorough: all of length <= 3, every 20th of length 4
     let thorough = vw_thorough();
     let hs: Vec<Vec<VOp>> = hs.into_iter().enumerate()
-        .filter(|(i, h)| h.iter().any(|o| matches!(o, VOp::RegD1 | VOp::RegD1b | VOp::RegD2 | VOp::RegD3)) || i % 7 == 0)
-        .filter(|(i, h)| match h.len() { 0..=2 => true, 3 => thorough || i % 3 == 0, _ => i % 20 == 0 })
+        .filter(|(i, h)| h.iter().any(|o| matches!(o, VOp::RegD1 | VOp::RegD1b | VOp::RegD2 | VOp::RegD3 | VOp::RegD4)) || i % 7 == 0)
+        // always kept: a rule over base facts, then a rule over that derived relation, then any third step
+        .filter(|(i, h)| match h.len() { 0..=2 => true,
+            3 => thorough || i % 3 == 0 || (matches!(h[0], VOp::RegD1 | VOp::RegD1b) && matches!(h[1], VOp::RegD2 | VOp::RegD4)),
+            _ => i % 20 == 0 || (matches!(h[0], VOp::RegD1) && matches!(h[1], VOp::RegD4) && i % 3 == 0) })
         .map(|(_, h)| h).collect();
     let mut cases = 0usize;
     let mut reported = 0usize;
@@ -103,8 +111,14 @@ fn verif_witness() {
         // length-3+ histories: one enabling point each (rotating); shorter ones: all
         let points: Vec<usize> = if h.len() >= 3 { vec![hi % 3] } else { (0..h.len()).collect() };
         for at in points {
-            cases += 1;
-            if let Some(f) = vi_run(h, at) { vw_report(f); reported += 1; }
+            // two starting contents: empty, and base facts already present (a materialisation made at registration
+            // time is then non-empty); alternate, and run both for the derived-on-derived triples
+            let dd = h.len() >= 2 && matches!(h[0], VOp::RegD1 | VOp::RegD1b) && matches!(h[1], VOp::RegD2 | VOp::RegD4);
+            for pre in [false, true] {
+                if !dd && pre != (hi % 2 == 1) { continue; }
+                cases += 1;
+                if let Some(f) = vi_run(h, at, pre) { vw_report(f); reported += 1; }
+            }
         }
         if reported >= 25 { break; }
     }
